@@ -6,6 +6,7 @@ import (
 	storageerrors "github.com/formancehq/ledger/internal/storage/sqlutils"
 
 	ledger "github.com/formancehq/ledger/internal"
+	"github.com/formancehq/ledger/internal/verifhook"
 	"github.com/formancehq/stack/libs/go-libs/logging"
 )
 
@@ -22,6 +23,7 @@ func (e *executionContext) AppendLog(ctx context.Context, log *ledger.Log) (*led
 	}
 
 	chainedLog := e.commander.chainLog(log)
+	verifhook.Yield(ctx, "chained", "id", chainedLog.ID)
 	logging.FromContext(ctx).WithFields(map[string]any{
 		"id": chainedLog.ID,
 	}).Debugf("Appending log")
@@ -29,17 +31,21 @@ func (e *executionContext) AppendLog(ctx context.Context, log *ledger.Log) (*led
 	e.commander.Append(chainedLog, func() {
 		close(done)
 	})
+	verifhook.Yield(ctx, "appended", "id", chainedLog.ID)
 	return chainedLog, done, nil
 }
 
 func (e *executionContext) run(ctx context.Context, executor func(e *executionContext) (*ledger.ChainedLog, chan struct{}, error)) (*ledger.ChainedLog, error) {
 	if ik := e.parameters.IdempotencyKey; ik != "" {
 		if err := e.commander.referencer.take(referenceIks, ik); err != nil {
+			verifhook.Yield(ctx, "ik.busy", "ik", ik)
 			return nil, err
 		}
 		defer e.commander.referencer.release(referenceIks, ik)
+		verifhook.Yield(ctx, "ik.taken", "ik", ik)
 
 		chainedLog, err := e.commander.store.ReadLogWithIdempotencyKey(ctx, ik)
+		verifhook.Yield(ctx, "ik.lookup", "hit", err == nil)
 		if err == nil {
 			return chainedLog, nil
 		}
@@ -51,7 +57,9 @@ func (e *executionContext) run(ctx context.Context, executor func(e *executionCo
 	if err != nil {
 		return nil, err
 	}
+	verifhook.Yield(ctx, "wait", "id", chainedLog.ID, "dry", e.parameters.DryRun)
 	<-done
+	verifhook.Yield(ctx, "done", "id", chainedLog.ID)
 	logger := logging.FromContext(ctx).WithFields(map[string]any{
 		"id": chainedLog.ID,
 	})
